@@ -257,11 +257,17 @@ MIRRORED: dict[tuple[str, str, str], str] = {('constraints/repetition_bounds.py'
                                                          '        slice_reprs.append(slice_repr)\n'
                                                          '    else:\n'
                                                          '        slice_reprs.append(repr(slice_))\n'
-                                                         "return f'{self.base.format_as_spec()}[{', "
+                                                         "return f'{self.base.format_as_base()}[{', "
                                                          "'.join(slice_reprs)}]'",
  ('language/search.py', 'LengthSearch', 'format_as_spec'): 'if self.value.IS_STAR:\n'
                                                            "    return f'len({self.value.format_as_spec()})'\n"
                                                            "return f'|{self.value.format_as_spec()}|'",
+ ('language/search.py', 'NonTerminalSearch', 'format_as_base'): 'inner: NonTerminalSearch = self\n'
+                                                                'while isinstance(inner, AnnotatedSearch):\n'
+                                                                '    inner = inner._inner\n'
+                                                                'if isinstance(inner, RuleSearch):\n'
+                                                                '    return self.format_as_spec()\n'
+                                                                "return f'({self.format_as_spec()})'",
  ('language/search.py', 'RuleSearch', 'format_as_spec'): 'return self.symbol.format_as_spec()',
  ('language/search.py', 'SelectiveSearch', 'format_as_spec'): 'slice_reprs: list[str] = []\n'
                                                               'for (symbol, is_direct), items in zip(self.symbols, '
@@ -281,7 +287,7 @@ MIRRORED: dict[tuple[str, str, str], str] = {('constraints/repetition_bounds.py'
                                                               '        else:\n'
                                                               '            slice_repr += repr(items)\n'
                                                               '    slice_reprs.append(slice_repr)\n'
-                                                              "return f'{self.base.format_as_spec()}{{{', "
+                                                              "return f'{self.base.format_as_base()}{{{', "
                                                               "'.join(slice_reprs)}}}'",
  ('language/search.py', 'StarSearch', 'format_as_spec'): "return f'*{self.base.format_as_spec()}'",
  ('language/symbols/terminal.py', 'Terminal', '_spell_regex'): 'def spell(char: str) -> str | None:\n'
@@ -338,7 +344,7 @@ def mirrored_sources() -> None:
 
 
 UNKNOWN = {"altParens": False, "parenCat": False, "parenRep": False, "parenAlt": False, "openBound": False,
-           "starTok": ".star", "plusTok": ".plus", "optTok": ".quest"}
+           "starTok": ".star", "plusTok": ".plus", "optTok": ".quest", "parenSelBase": False}
 
 HEADER = """/-
 GENERATED by harness/translate_print.py from /repo's current source — do not edit.
@@ -363,6 +369,8 @@ def regenerate() -> dict[str, Any]:
         vals.update(repetition_shape(_parse(NODES + "repetition.py")))
         vals.update(other_shapes())
         mirrored_sources()
+        # MIRRORED holds ItemSearch / SelectiveSearch.format_as_spec printing `self.base.format_as_base()` (9a10ad80)
+        vals["parenSelBase"] = True
         cap = int(module_constant(_parse(NODES + "__init__.py"), "MAX_REPETITIONS"))
     except Refusal as e:
         refusals.append(str(e))
@@ -379,7 +387,8 @@ def regenerate() -> dict[str, Any]:
              f"  {{ altParens := {lean_bool(vals['altParens'])}, parenCat := {lean_bool(vals['parenCat'])}, "
              f"parenRep := {lean_bool(vals['parenRep'])},\n"
              f"    parenAlt := {lean_bool(vals['parenAlt'])}, openBound := {lean_bool(vals['openBound'])}, cap := {vals['cap']},\n"
-             f"    starTok := {vals['starTok']}, plusTok := {vals['plusTok']}, optTok := {vals['optTok']} }}\n")
+             f"    starTok := {vals['starTok']}, plusTok := {vals['plusTok']}, optTok := {vals['optTok']},\n"
+             f"    parenSelBase := {lean_bool(vals['parenSelBase'])} }}\n")
     body += "\nend FV.Generated\n"
     write_if_changed(LEAN / "Generated" / "Print.lean", body)
     return {"constants": vals, "refusals": refusals}
